@@ -121,6 +121,10 @@ fn main() {
             let n = rec_lib::record(args.val("--trace").expect("--trace"), args.val("--family").unwrap_or("mixed"), args.num("--count", 1000) as usize, seed, args.val("--force").unwrap_or("avx2"), args.val("--kinds").unwrap_or(""), args.val("--group").unwrap_or("all"));
             rep.count("records", n);
         }
+        "rerecord" => {
+            rec_lib::rerecord(args.val("--in").expect("--in"), args.val("--trace").expect("--trace"));
+            return;
+        }
         "record-iter" => {
             let n = rec_lib::record_iter(args.val("--trace").expect("--trace"), args.num("--count", 300) as usize, seed, args.val("--force").unwrap_or("avx2"));
             rep.count("records", n);
